@@ -5,6 +5,7 @@ from __future__ import annotations
 import ast
 import dataclasses
 import inspect
+import textwrap
 from collections import Counter, defaultdict
 from collections.abc import Callable  # noqa: TC003 (sphinx needs unconditional import)
 from copy import deepcopy
@@ -609,7 +610,7 @@ def _parse_algorithm(func: Callable) -> tuple[list[_Series], list[_Product], lis
         A tuple containing the series, products, and outputs of the algorithm.
 
     """
-    source = ast.parse(inspect.getsource(func))
+    source = ast.parse(textwrap.dedent(inspect.getsource(func)))
     series, products, outputs = _preprocess_algorithm(source.body[0])
     to_delete = _find_delete_candidates(series, products, outputs)
 
